@@ -208,7 +208,10 @@ fn run_c17(ctx: &mut Ctx) {
     run_mode(ctx, Mode::Ap)
 }
 fn run_c05(ctx: &mut Ctx) {
-    run_mode(ctx, Mode::Diff)
+    run_mode(ctx, Mode::Diff);
+    if ctx.tier == Tier::Thorough {
+        crate::c05corelib::run(ctx);
+    }
 }
 
 const SPACE: &str = "Execution space: every `//! > cairo_code` snippet of tests/e2e_test_data (382) plus 24 hand-written programs (loops, recursion, locals across calls and merges, dicts, arrays, enums, early return, panics, closures, u256, signed, hashes), every function `test::*` whose user parameters are scalars (u8..u128, i8..i128, felt252, bool, u256; <=3 params), the full cross product of the boundary domains B(T) (quick: 4 values per parameter, <=64 vectors; thorough: 7-10 values, <=400 vectors)";
